@@ -157,12 +157,13 @@ def c06(c):
     need = ["SetBytes/accept", "SetBytes/x>=p", "SetBytes/offcurve", "SetBytes/nonsubgroup", "SetBytes/len",
             "SetBytesUncompressed/accept", "SetBytesUncompressed/x>=p", "SetBytesUncompressed/y>=p", "SetBytesUncompressed/ywrong",
             "SetBytesUncompressed/offcurve", "SetBytesUncompressed/nonsubgroup", "SetBytesUncompressed/len",
-            "ReadPoint/accept", "ReadPoint/x>=p", "ReadPoint/offcurve", "ReadPoint/nonsubgroup", "ReadPoint/len"]
+            "ReadPoint/accept", "ReadPoint/x>=p", "ReadPoint/offcurve", "ReadPoint/nonsubgroup", "ReadPoint/len",
+            "SetBytes/accept-yboundary", "SetBytesUncompressed/accept-yboundary", "ReadPoint/accept-yboundary"]
     missing = [k for k in need if c.judged.get(k, 0) == 0]
     c.guard(not missing, "input classes (as classified by the specification) without any member: %s" % missing)
     c.count_classes(files, group_class)
     c.sample_events(files, 3)
-    return c.finish(rule="entry point x input class x seeded member; classes as classified by the specification from the bytes: accept, wrong length, x>=p, y>=p, "
+    return c.finish(rule="entry point x input class x seeded member; classes as classified by the specification from the bytes: accept, accept with y at the boundary of the sign choice ((p-1)/2, limb by limb), wrong length, x>=p, y>=p, "
                          "off curve, wrong/non-canonical y, outside the subgroup; every class must be non-empty; distinct = distinct inputs", min_events=300)
 
 
@@ -487,8 +488,18 @@ def c12(c):
     exe = vlib.build_harness(race=True)
     racedir = os.path.join(c.dir, "race")
     os.makedirs(racedir, exist_ok=True)
-    files = c.drive("conc", progs, shards=n, binary=exe, timeout=7200,
-                    env={"GORACE": "log_path=%s/report halt_on_error=0 exitcode=0 history_size=3" % racedir})
+    # one driver process per start-up GOMAXPROCS value (0 = inherited): programs with envgmp = g run in a process started with GOMAXPROCS=g
+    groups = {}
+    for ln in open(progs):
+        groups.setdefault(json.loads(ln).get("envgmp", 0), []).append(ln)
+    files = []
+    for g, lines in sorted(groups.items()):
+        pf = os.path.join(c.dir, "programs.conc.env%d.ndjson" % g)
+        open(pf, "w").write("".join(lines))
+        env = {"GORACE": "log_path=%s/report halt_on_error=0 exitcode=0 history_size=3" % racedir}
+        if g:
+            env["GOMAXPROCS"] = g
+        files += c.drive("conc", pf, name="tr.env%d" % g, shards=len(lines), binary=exe, timeout=7200, env=env)
     # sensor: race detector reports become `race` events of an extra trace
     reports = []
     for f in sorted(os.listdir(racedir)):
@@ -508,9 +519,9 @@ def c12(c):
     need = ["prove", "commit", "msm", "codec", "batch", "transcript", "poly", "ipa", "fp"]
     missing = [k for k in need if c.judged.get(k, 0) == 0]
     c.guard(not missing, "call kinds without any member: %s" % missing)
-    c.count_classes(files, lambda e: (e.get("prog"), e.get("g"), e.get("i"), e.get("op"), e.get("k"), e.get("gomaxprocs")) if e["ev"] == "conc" else None)
+    c.count_classes(files, lambda e: (e.get("prog"), e.get("g"), e.get("i"), e.get("op"), e.get("k"), e.get("gomaxprocs"), e.get("envgmp")) if e["ev"] == "conc" else None)
     c.sample_events(files[:2], 2, keep=lambda e: e["ev"] == "conc")
-    return c.finish(rule="K in {2,8} (thorough: 2,4,8,32) goroutines x GOMAXPROCS {1,4,16} (thorough: 1,2,4,16) x call mixes (prove+verify, commit, MSM over the shared SRS, encode/decode, batch helpers, "
+    return c.finish(rule="K in {2,8} (thorough: 2,4,8,32) goroutines x runtime GOMAXPROCS {1,4,16} (thorough: 1,2,4,16), K = 64 (thorough: 64,128) callers on MSM-bound mixes, processes started with GOMAXPROCS=1 (thorough: 1,2,4) x call mixes (prove+verify, commit, MSM over the shared SRS, encode/decode, batch helpers, "
                          "transcripts, polynomial routines, IPA); every call executed alone and concurrently, replies compared; harness built with -race; distinct = distinct (program, goroutine, position)",
                     min_events=100,
                     assumptions=["freedom from instruction-level data races is OBSERVED by the Go race detector on the schedules that occurred, not decided by the model; "
